@@ -25,6 +25,31 @@ def effective_newline(spec):
     return nl if isinstance(nl, str) and nl else None
 
 
+_vocab = None
+
+
+def count_model_applies(meta):
+    """The tabstop count model assumes element names outside every snippet table and
+    attribute names outside the boolean-attribute list; the tables are read (data only)
+    so that a legitimate change of them switches the count check off instead of alarming."""
+    global _vocab
+    if _vocab is None:
+        import sys
+        keys = set()
+        sn = sys.modules.get('emmet.snippets')
+        for name in ('markup_snippets', 'xsl_snippets', 'pug_snippets'):
+            keys.update(getattr(sn, name, {}) or {})
+        cfg = sys.modules.get('emmet.config')
+        booleans = set((getattr(cfg, 'DEFAULT_OPTIONS', {}) or {}).get('output.booleanAttributes') or [])
+        _vocab = (keys, booleans)
+    keys, booleans = _vocab
+    if any(n in keys for n in meta.get('names', ())):
+        return False
+    if any(a.lower() in booleans for a in meta.get('attrs', ())):
+        return False
+    return True
+
+
 def skeleton(abbr):
     s = re.sub(r'[a-zA-Z]+', 'a', abbr)
     s = re.sub(r'\d+', '1', s)
@@ -114,7 +139,9 @@ def check_call(run, i, op, result):
         if idx != list(range(1, len(idx) + 1)):
             bad('numbering-document-order', {'indices-in-document-order': idx})
             return
-        if 'expect' in meta:
+        if 'expect' in meta and not count_model_applies(meta):
+            run.count('c13:count-model-not-applicable(vocabulary now in a snippet table / boolean list)')
+        elif 'expect' in meta:
             run.count('c13:calls-numbering-counted')
             if len(idx) != meta['expect']:
                 bad('numbering-count', {'tabstops': len(idx), 'empty-values-and-leaves-in-abbreviation': meta['expect']})
